@@ -223,6 +223,16 @@ func exec(s *Scenario, guard bool) (ms []core.Mismatch) {
 }
 
 func (Driver) Replay(c *core.Ctx, raw json.RawMessage) []core.Mismatch {
+	var probe struct {
+		Kind string `json:"kind"`
+	}
+	if json.Unmarshal(raw, &probe) == nil && probe.Kind == "prog" {
+		var ps ProgScenario
+		if err := json.Unmarshal(raw, &ps); err != nil {
+			return []core.Mismatch{{Signature: "machinery", Detail: err.Error()}}
+		}
+		return execProg(&ps, true)
+	}
 	var s Scenario
 	if err := json.Unmarshal(raw, &s); err != nil {
 		return []core.Mismatch{{Signature: "machinery", Detail: err.Error()}}
@@ -314,6 +324,117 @@ func (r *runner) runGen(space string, o tlc.Opts) {
 				c.Count(5, 0, 1)
 				if k%100000 == 7 && e.Name == "id" {
 					c.Sample(map[string]any{"p": l.P.SVG(), "q": l.Q.SVG(), "expected_and": l.And, "expected_or": l.Or})
+				}
+				c.Report(s, ms)
+			}
+		})
+		close(done)
+	}()
+	c.TLC(o, true)
+	close(ch)
+	<-done
+}
+
+// ---- register programs: (P op1 Q1) op2 Q2 -----------------------------------------------------------------------
+
+type ProgScenario struct {
+	Kind    string          `json:"kind"` // "prog"
+	S       int             `json:"S"`
+	Samples [][2]int        `json:"samples"`
+	P       latgeo.LPath    `json:"p"`
+	Q1      latgeo.LPath    `json:"q1"`
+	Q2      latgeo.LPath    `json:"q2"`
+	Emb     latgeo.Emb      `json:"emb"`
+	Cells   [][][]int       `json:"cells"` // [op1][op2][sample]
+	F       map[string]bool `json:"f"`
+}
+
+var progOps = []string{"and", "or", "xor", "not"}
+
+func execProg(s *ProgScenario, guard bool) (ms []core.Mismatch) {
+	tagger := &Scenario{P: s.P, Emb: s.Emb, F: s.F, Space: "prog"}
+	pts := latgeo.SamplePts(s.Samples, s.S, s.Emb)
+	for i, op1 := range progOps {
+		for j, op2 := range progOps {
+			var r *canvas.Path
+			run := func() {
+				r1 := apply(op1, latgeo.Build(s.P, s.Emb), latgeo.Build(s.Q1, s.Emb))
+				r = apply(op2, r1, latgeo.Build(s.Q2, s.Emb))
+			}
+			var kind string
+			var msg any
+			if guard {
+				kind, msg = latgeo.Guard(20*time.Second, run)
+			} else if ok, m := latgeo.Try(run); !ok {
+				kind, msg = "panic", m
+			}
+			if kind != "" {
+				ms = append(ms, core.Mismatch{Signature: kind + "-" + op2 + ":" + latgeo.PanicClass(msg) + "+" + tagger.tag(),
+					Detail: fmt.Sprintf("(P %s Q1) %s Q2 %s: P=%s Q1=%s Q2=%s emb=%s: %v", op1, op2, kind, s.P.SVG(), s.Q1.SVG(), s.Q2.SVG(), s.Emb.Name, msg)})
+				continue
+			}
+			w, err := latgeo.Windings(r, pts, 8)
+			if err != nil {
+				ms = append(ms, core.Mismatch{Signature: "result-undecodable-" + op2, Detail: err.Error()})
+				continue
+			}
+			exp := s.Cells[i][j]
+			for k := range exp {
+				if exp[k] != 2 && (w[k] != 0) != (exp[k] == 1) {
+					sig := "cells-" + op2 + "+" + tagger.tag()
+					ms = append(ms, core.Mismatch{Signature: sig, Detail: fmt.Sprintf("(P %s Q1) %s Q2: P=%s Q1=%s Q2=%s emb=%s: sample (lattice %.3f,%.3f) expected filled=%d, result winding %d; result=%s",
+						op1, op2, s.P.SVG(), s.Q1.SVG(), s.Q2.SVG(), s.Emb.Name, float64(s.Samples[k][0])/float64(s.S), float64(s.Samples[k][1])/float64(s.S), exp[k], w[k], r)})
+					break
+				}
+			}
+		}
+	}
+	return
+}
+
+func (r *runner) runProg(o tlc.Opts) {
+	c := r.c
+	type pline struct {
+		Hdr     bool            `json:"hdr,omitempty"`
+		S       int             `json:"S,omitempty"`
+		Samples [][2]int        `json:"samples,omitempty"`
+		P       latgeo.LPath    `json:"p,omitempty"`
+		Q1      latgeo.LPath    `json:"q1,omitempty"`
+		Q2      latgeo.LPath    `json:"q2,omitempty"`
+		Cells   [][][]int       `json:"cells,omitempty"`
+		F       map[string]bool `json:"f,omitempty"`
+	}
+	var hdr pline
+	ch := make(chan []byte, 4096)
+	o.OnLine = func(p []byte) {
+		if hdr.S == 0 {
+			var l pline
+			if json.Unmarshal(p, &l) == nil && l.Hdr {
+				hdr = l
+				return
+			}
+		}
+		ch <- append([]byte(nil), p...)
+	}
+	done := make(chan struct{})
+	go func() {
+		core.Parallel(14, ch, func(p []byte) {
+			var l pline
+			if err := json.Unmarshal(p, &l); err != nil || len(l.P) == 0 {
+				c.Broken("bad program scenario line")
+				return
+			}
+			k := atomic.AddInt64(&r.n, 1)
+			key := l.P.SVG() + "|" + l.Q1.SVG() + "|" + l.Q2.SVG()
+			if _, dup := r.seen.LoadOrStore(key, true); !dup {
+				atomic.AddInt64(&r.nontriv, 1)
+			}
+			for _, e := range embsFor(int64(hash(key)), false) {
+				s := &ProgScenario{Kind: "prog", S: hdr.S, Samples: hdr.Samples, P: l.P, Q1: l.Q1, Q2: l.Q2, Emb: e, Cells: l.Cells, F: l.F}
+				ms := execProg(s, false)
+				c.Count(32, 0, 1)
+				if k%3000 == 5 && e.Name == "id" {
+					c.Sample(map[string]any{"program": "(P op1 Q1) op2 Q2", "p": l.P.SVG(), "q1": l.Q1.SVG(), "q2": l.Q2.SVG()})
 				}
 				c.Report(s, ms)
 			}
@@ -434,12 +555,14 @@ func (d Driver) Run(c *core.Ctx) error {
 		r.runGen("pent", tlc.Opts{Module: "BoolOps", Config: cfg(4, 5, 1, "random", 500, "bool", false), Seed: c.Seed, Timeout: 30 * time.Minute})
 		r.runGen("two", tlc.Opts{Module: "BoolOps", Config: cfg(3, 4, 2, "random", 120, "bool", false), Seed: c.Seed + 1, Timeout: 30 * time.Minute})
 		r.runGen("hex", tlc.Opts{Module: "BoolOps", Config: cfg(6, 6, 1, "random", 250, "bool", false), Seed: c.Seed + 2, Timeout: 30 * time.Minute})
+		r.runProg(tlc.Opts{Module: "BoolOps", Config: cfg(3, 4, 1, "random", 60, "prog", false), Seed: c.Seed + 5, Timeout: 30 * time.Minute}) // 10 800 programs x 16 op pairs
 		r.runCurved(tlc.Opts{Module: "CurvedOps", Config: ccfg(4, 3, 60), Seed: c.Seed + 3, Timeout: 30 * time.Minute})
 		r.runCurved(tlc.Opts{Module: "CurvedOps", Config: ccfg(5, 2, 40), Seed: c.Seed + 4, Timeout: 30 * time.Minute})
 	} else {
 		r.runGen("tri", tlc.Opts{Module: "BoolOps", Config: cfg(2, 3, 1, "random", 240, "bool", false), Seed: 7777})         // a fixed 57 600-pair sample of the tri space (deterministic: known findings per input)
 		r.runGen("pent", tlc.Opts{Module: "BoolOps", Config: cfg(4, 5, 1, "random", 130, "bool", false), Seed: c.Seed + 1}) // 16 900 pentagon pairs on 5x5
 		r.runGen("two", tlc.Opts{Module: "BoolOps", Config: cfg(3, 4, 2, "random", 40, "bool", false), Seed: c.Seed + 2})   // two contours per operand
+		r.runProg(tlc.Opts{Module: "BoolOps", Config: cfg(3, 4, 1, "random", 14, "prog", false), Seed: c.Seed + 5}) // 588 programs x 16 op pairs
 		r.runCurved(tlc.Opts{Module: "CurvedOps", Config: ccfg(4, 3, 20), Seed: c.Seed + 3})                               // 400 pairs of cubic contours
 	}
 	c.Count(0, r.nontriv, 0)
